@@ -14,9 +14,11 @@ def main():
         rng = random.Random('%s/%d/%d' % (family, seed, i))
         g = getattr(gen, 'gen_' + family)
         opts, program = g(rng, knobs)
-        r = prog.run_program(opts, program)
+        r = prog.run_program(opts, program, wall=10)
         r.update(tid=i, family=family, opts=opts, prog=program)
         res.append(r)
+        if sum(1 for x in res if x['status'] != 'ok') >= 3:
+            break       # the library hangs or livelocks in this batch: three witnesses are enough
     with open(out, 'w') as f:
         json.dump(res, f)
 
